@@ -31,6 +31,22 @@ CHECKS = {
     "C14": dict(engine="dsched", technique="property-based testing: generated start_poll/poll/poll-until-true programs with readers and the call_rcu helper under generated schedules; interval oracle at the first true result, stability and eventual-completion oracles",
                 text="Handles taken at generated points of in-flight grace periods; first true result checked against sections open at start_poll; true is stable; poll loops terminate. Exploration.",
                 ref="DESIGN.md §6 C14"),
+    "C05": dict(engine="dsched", technique="property-based testing: Hypothesis-generated concurrent hash-table programs + schedules + TSO delays on a controlled-concurrency engine; Wing-Gong linearizability check against a multiset-per-key reference model, interval predicates for traversals, shadow heap",
+                text="Call/return histories of the real cds_lfht code (all allocators, flavors, colliding and non-colliding hashes, concurrent grow/shrink) are searched for a linearization against the reference specification; traversals are checked by definitely/possibly-present interval predicates. Exploration over schedules.",
+                ref="DESIGN.md §6 C05"),
+    "C06": dict(engine="dsched", technique="property-based testing: generated add_unique/add_replace/replace/del races on one key with concurrent walks, traversals and resizes; linearizability check against the unique-key specification, exactly-one-owner and interval oracles",
+                text="Same engine and checker as C05 with generators confined to unique-insertion keys; the specification makes add_unique return its own node iff the key is absent and hands each replaced node to one caller. Exploration.",
+                ref="DESIGN.md §6 C06"),
+    "C07": dict(engine="dsched", technique="property-based testing: generated competing del/replace/add_replace on the same node with immediate reclamation after a grace period, shrinks and destroy; ownership table + linearizability spec + shadow heap (use-after-reclaim) oracle",
+                text="Removal races on one node under generated schedules; the winner frees the node after synchronize_rcu/call_rcu while other threads keep running, so any later access by library code is caught by the shadow heap; bucket levels and the table itself likewise. Exploration. One known finding (qsbr explicit resize) is probed and excluded by construction.",
+                ref="DESIGN.md §6 C07, §10"),
+    "C08": dict(engine="libfuzzer", technique="coverage-guided fuzzing (libFuzzer, ASan+UBSan): bytes decoded structurally into table configuration + operation sequence, differential check against a C++ reference multimap after every step",
+                text="Model-based fuzz target over all creation parameters, flags, allocators (incl. custom cds_lfht_alloc) and adversarial hashes; every result is compared with the reference multimap, full scan / count_nodes / destroy checked. Exploration over inputs (10^5-10^7 executions per run).",
+                ref="DESIGN.md §5, §6 C08",
+                note="Trusted base: the C++ reference model and decoder in fuzz/lfht_fuzz.cc, libFuzzer, ASan/UBSan (alignment check disabled, see DESIGN.md). Single application thread; AUTO_RESIZE worker synchronised through a white-box read of resize_initiated."),
+    "C09": dict(engine="libfuzzer+dsched", technique="coverage-guided fuzzing with a reference model, a hang watchdog and a recording bucket allocator (inputs: all resize targets, allocators, bounds) plus property-based schedule exploration of resizes concurrent with operations (linearizability, shadow heap, termination oracles)",
+                text="E2: every requested size incl. 0, non powers of two, > max and ULONG_MAX must return and preserve contents, bucket count within [1,max], order arguments validated by a recording allocator. E1: explicit and lazy (chain-length, counter-driven, partitioned) resizes concurrent with updates/lookups/destroy. Exploration over inputs and schedules.",
+                ref="DESIGN.md §6 C09"),
 }
 NOT_YET = "check not built yet in this session (planned: see DESIGN.md §6)"
 
@@ -39,7 +55,7 @@ def main():
     hooks_commits = subprocess.run(["git", "-C", "/repo", "log", "--format=%H", "--grep=^verif hooks"], capture_output=True, text=True).stdout.split()
     m = {
         "version": 1,
-        "setup_cmd": "python3 engine/build.py >/dev/null && python3-vt -c 'import hypothesis'",
+        "setup_cmd": "python3 engine/build.py >/dev/null && python3 fuzz/fzbuild.py lfht_fuzz >/dev/null && python3-vt -c 'import hypothesis'",
         "hooks": {
             "guard": "URCU_VERIF",
             "enable": "checks compile /repo/src and /repo/include themselves (engine/build.py, fuzz/build.py) with -DURCU_VERIF plus -DURCU_VERIF_<CONSTANT>=<value> overrides; the autotools build in /repo is never used by the checks",
@@ -48,7 +64,9 @@ def main():
             "add_only": True,
         },
         "engines": [
-            {"name": "dsched", "path": "engine/", "serves_properties": sorted(k for k, v in CHECKS.items() if v["engine"] == "dsched"),
+            {"name": "libfuzzer", "path": "fuzz/", "serves_properties": sorted(k for k, v in CHECKS.items() if "libfuzzer" in v["engine"]),
+             "kind_free_text": "libFuzzer model-based targets (clang -fsanitize=fuzzer,address,undefined), structural decoding of bytes into configuration + operation sequence, reference model compared after every step"},
+            {"name": "dsched", "path": "engine/", "serves_properties": sorted(k for k, v in CHECKS.items() if "dsched" in v["engine"]),
              "kind_free_text": "deterministic controlled-concurrency engine: real library sources instrumented with gcc -fsanitize=thread (instrumentation only), baton scheduler, x86-TSO store buffers, fault/signal injection, shadow heap; cases generated and shrunk by Hypothesis"},
         ],
         "checks": [],
